@@ -3,6 +3,7 @@ CONSTANTS
   Par <- P1
   Script <- S_opts
   MaxJobs = 2
+  BarrierOnTaken <- DefectOn
 SPECIFICATION Spec
-INVARIANTS OptionsInEffectAtGo AtMostOneBest AckNonNeg Quiescent ResultFresh NoDeadlock
+INVARIANTS OptionsInEffectAtGo
 CHECK_DEADLOCK FALSE
